@@ -531,7 +531,7 @@ impl<const N: u32> ops::Div for PxE2<{ N }> {
             } else {
                 //remove carry and rcarry bits and shift to correct position
                 let frac64_z = (frac64_z & 0x_3FFF_FFFF) as u32;
-                frac_a = frac64_z >> (reg_a + 2);
+                frac_a = crate::u32_zero_shr(frac64_z, reg_a + 2);
 
                 //regime length is smaller than length of posit
                 let mut bit_n_plus_one = false;
